@@ -291,7 +291,7 @@ def f15b (v : Variant) : Cache :=
   Causal.copyPrefix c 0 1 8
 
 theorem F15b_canResume_unsound :
-    canResume (f15b {}) 1 8 = true ∧ (abs (f15b {})).map (fun e => (e.pos, e.seqs)) = [(7, [0, 1]), (8, [0]), (9, [0])] ∧
+    canResume (f15b {}) 1 8 = true ∧ (abs (f15b {})).map (fun e => (e.pos, e.seqs)) = [(9, [0]), (7, [0, 1]), (8, [0])] ∧
     canResume (f15b { fixResume := true }) 1 8 = false := by
   decide
 
